@@ -2,6 +2,7 @@ import BppModel.Proto
 import BppModel.Prelude.Scalar
 import BppModel.Text.StrLite
 import BppModel.Text.Number
+import BppModel.Text.Glob
 /-
 Driver for C17 (round trips and exact grammars).  Stateless: every op carries its inputs.
 Strings are hex-escaped; the implementation's doubles arrive as 16 hex digits, the model's
@@ -81,6 +82,18 @@ def step (s : Unit) (op : List String) (impl : Option (List String)) : Unit × S
         | some _ => "FAIL:parse"
       (s, out, verdict)
     | none => (s, "bad-op", "-")
+  | ["glob", hp, hn] =>
+    match unhex hp, unhex hn with
+    | some pat, some name =>
+      let m := showBool (Glob.matcher pat name)
+      let want := showBool (Glob.globMatch pat name)
+      -- the three copies of the matcher must all agree with textbook glob semantics
+      let verdict := match impl with
+        | none => "-"
+        | some [a, b, c] => if a == want && b == want && c == want then "ok" else "FAIL:glob_agrees"
+        | some _ => "FAIL:parse"
+      (s, m ++ " " ++ m ++ " " ++ m, verdict)
+    | _, _ => (s, "bad-op", "-")
   | _ => (s, "bad-op", "-")
 
 def machine : Machine Unit := { init := fun _ => (), step := step }
